@@ -54,18 +54,16 @@ func H_C08_groupclose3() {
 	})
 }
 
-// E-batch: AddAll of n items (n symbolic in [0,2]) on a result worker with concurrency 2.
-func H_C08_batch() {
-	n := vNondetInt()
-	vAssume(0 <= n && n <= 2)
+// M-batch: AddAll of 2 items on a result worker with two pool goroutines; the dispatcher's step is driven twice.
+func H_C08_batch2() {
 	d0, d1 := vNondetInt(), vNondetInt()
-	w := NewResultWorker(func(j Job[int]) (int, error) { return j.Data() + 1, nil }, 2)
-	q := w.BindQueue()
-	items := make([]Item[int], 2)
-	items[0] = Item[int]{ID: "a", Data: d0}
-	items[1] = Item[int]{ID: "b", Data: d1}
-	g := q.AddAll(items[:n])
+	w, q := mResultWorker(func(j Job[int]) (int, error) { return j.Data() + 1, nil }, 2, 2)
+	g := q.AddAll([]Item[int]{{ID: "a", Data: d0}, {ID: "b", Data: d1}})
 	got, sum, readerDone, waited := 0, 0, false, false
+	go func() { // dispatcher (runs first in every round: -order)
+		mDispatch(w)
+		mDispatch(w)
+	}()
 	go func() {
 		for r := range g.Results() {
 			got++
@@ -75,14 +73,38 @@ func H_C08_batch() {
 	}()
 	go func() {
 		g.Wait()
-		vAssert("C08.batch.numpending-after-wait", g.NumPending() == 0)
+		vAssert("C08.batch2.numpending-after-wait", g.NumPending() == 0)
 		waited = true
 	}()
 	vAtQuiescence(func() {
-		vReach("C08.batch.quiescent")
-		vAssert("C08.batch.stream-closed", readerDone)
-		vAssert("C08.batch.one-per-item", got == n)
-		vAssert("C08.batch.values", (n != 2 || sum == d0+d1+2) && (n != 1 || sum == d0+1))
-		vAssert("C08.batch.wait-returns", waited)
+		vReach("C08.batch2.quiescent")
+		vAssert("C08.batch2.stream-closed", readerDone)
+		vAssert("C08.batch2.one-per-item", got == 2)
+		vAssert("C08.batch2.values", sum == d0+d1+2)
+		vAssert("C08.batch2.wait-returns", waited)
+	})
+}
+
+// Empty batch: the stream must still be closed (exactly once) and Wait must return.
+func H_C08_batch0() {
+	_, q := mResultWorker(func(j Job[int]) (int, error) { return j.Data() + 1, nil }, 1, 1)
+	g := q.AddAll([]Item[int]{})
+	got, readerDone, waited := 0, false, false
+	go func() {
+		for range g.Results() {
+			got++
+		}
+		readerDone = true
+	}()
+	go func() {
+		g.Wait()
+		waited = true
+	}()
+	vAtQuiescence(func() {
+		vReach("C08.batch0.quiescent")
+		vAssert("C08.batch0.stream-closed", readerDone)
+		vAssert("C08.batch0.no-results", got == 0)
+		vAssert("C08.batch0.wait-returns", waited)
+		vAssert("C08.batch0.numpending", g.NumPending() == 0)
 	})
 }
